@@ -16,12 +16,12 @@ func initConstantDeclarationNode() {
 			constant := args[1].MustReference().(ast.ExpressionNode)
 
 			var typeNode ast.TypeNode
-			if !args[2].IsUndefined() {
+			if !args[2].IsUndefined() && !args[2].IsNil() {
 				typeNode = args[2].MustReference().(ast.TypeNode)
 			}
 
 			var init ast.ExpressionNode
-			if !args[3].IsUndefined() {
+			if !args[3].IsUndefined() && !args[3].IsNil() {
 				init = args[3].MustReference().(ast.ExpressionNode)
 			}
 
